@@ -130,6 +130,14 @@ func (p MembershipProof) DigestVerify(digest hashing.Digest, snapshot *Snapshot)
 		return false
 	}
 
+	// The hyper proof alone does not bind the digest (shortcut leaves only bind a
+	// prefix of it): a claim is only sound together with the history proof, which
+	// cannot be checked for an absence claim or when the claimed actual version is
+	// beyond the query version.
+	if !p.Exists || p.ActualVersion > p.QueryVersion {
+		return false
+	}
+
 	hyperCorrect := p.HyperProof.Verify(digest, snapshot.HyperDigest)
 
 	if p.Exists {
